@@ -14,9 +14,3 @@ NOT_APPLICABLE = [
                'but nothing here can discharge it, sampling parameters is '
                'testing'},
 ]
-for _p in ('C10',):
-    NOT_APPLICABLE.append({
-        'property_id': _p,
-        'reason': 'not claimed yet: contracts for this property are planned '
-                  'in DESIGN.md but no check is registered at this commit',
-    })
